@@ -37,6 +37,48 @@ def has_uf(t):
     return r
 
 
+# ---------------------------------------------------------------- second solver
+# A sample of the QF_BV queries (the first CROSS_BUDGET per process) is exported as SMT-LIB and decided again by cvc5; a disagreement
+# makes the whole run undecided (see run.py).  Queries that still mention sequence terms are skipped (cvc5 gets pure bit-vector logic).
+CROSS = {"done": 0, "agree": 0, "disagree": [], "inconclusive": 0}
+CROSS_BUDGET = int(__import__("os").environ.get("MIRSYM_CROSSCHECK", "12"))
+
+
+def crosscheck(solver, assumptions, verdict):
+    if CROSS["done"] >= CROSS_BUDGET:
+        return
+    import subprocess, tempfile, os
+    try:
+        s2 = z3.Solver()
+        for a in solver.assertions():
+            s2.add(a)
+        for a in assumptions:
+            s2.add(a)
+        text = s2.to_smt2()
+        if "Seq" in text or "seq." in text:
+            return
+        CROSS["done"] += 1
+        body = "(set-logic QF_UFBV)\n" + "\n".join(l for l in text.splitlines() if not l.startswith("(set-info") and not l.startswith("; ")) + "\n"
+        with tempfile.NamedTemporaryFile("w", suffix=".smt2", delete=False) as f:
+            f.write(body)
+            path = f.name
+        try:
+            p = subprocess.run(["cvc5", "--lang", "smt2", "--tlimit=20000", path], stdout=subprocess.PIPE, stderr=subprocess.PIPE, text=True, timeout=40)
+            out = (p.stdout or "").strip().splitlines()
+        finally:
+            os.unlink(path)
+        ans = out[0].strip() if out else ""
+        if "(error" in (p.stdout or "") or ans not in ("sat", "unsat"):
+            CROSS["inconclusive"] += 1
+            return
+        if ans == str(verdict):
+            CROSS["agree"] += 1
+        else:
+            CROSS["disagree"].append(f"z3 {verdict} vs cvc5 {ans} ({len(body)} bytes of SMT-LIB)")
+    except Exception:
+        CROSS["inconclusive"] += 1
+
+
 class Mismatch(Exception):
     """structural difference between the two flattened strings (an atom facing a byte or another atom, or different lengths)"""
 
@@ -66,6 +108,8 @@ class SeqEq:
         r = self.s.check(*assumptions)
         self.stats["solver_s"] = self.stats.get("solver_s", 0.0) + time.time() - t0
         self.stats["queries"] = self.stats.get("queries", 0) + 1
+        if r != z3.unknown:
+            crosscheck(self.s, assumptions, r)
         return r
 
     def implied(self, cond):
